@@ -6,4 +6,4 @@ Extraction Language OCaml.
 Extraction "extract/model.ml"
   observe run_parser run_printer run_square_maps take_action dec_action enc_action
   initial parse_state dec_state state_of_new enc_state
-  mon_block mon_ghost mon_trans trans_state_eq ghost_init mon_parse mon_print mon_square run_from_bit_board mon_from_bit_board get queries_safe apply_safe.
+  mon_block mon_ghost mon_trans trans_state_eq ghost_init mon_parse mon_print mon_square run_from_bit_board mon_from_bit_board inv_exec_blk get queries_safe apply_safe.
